@@ -513,17 +513,23 @@ def stress_specs(r, tier):
 def run_stress(ctx, h, drv, label, variant="asan"):
     r = C.Rng(ctx.seed, "c20/stress/" + label)
     for cfg, op, head, nsub in stress_specs(r, ctx.tier):
-        rc, out, err = C.run_lines([h], [op], timeout=240)
+        rc, out, err = C.run_lines([h], [op], timeout=240, env={"TSAN_OPTIONS": "halt_on_error=0:exitcode=0:second_deadlock_stack=1"})
         kind = "free-%s-%s" % (cfg["ex"], variant)
         ctx.case(op)
         ctx.hist(kind)
         if variant == "tsan" and "WARNING: ThreadSanitizer" in err:
-            m = re.search(r"WARNING: ThreadSanitizer: ([^\n(]*)", err)
-            fn = re.findall(r"#\d+ (\w+) ", err)
-            site = next((x for x in fn if x.startswith(("iwstw", "iwtp", "_worker"))), fn[0] if fn else "?")
-            ctx.fail(dict(kind="tsan", what=m.group(1).strip() if m else "?", site=site, ex=cfg["ex"]), dict(ops=[op], stderr=err[-3000:]),
-                     "ThreadSanitizer: %s in %s during `%s`" % (m.group(1).strip() if m else "?", site, op))
-            continue
+            # only reports with an access inside the repository's sources count (the harness's own bookkeeping does not)
+            hit = None
+            for rep in err.split("WARNING: ThreadSanitizer")[1:]:
+                tops = re.findall(r"(?:Read|Write|Previous read|Previous write|Previous atomic \w+|Atomic \w+) of size[^\n]*\n\s+#0 (\w+) ([^\s:]+)", rep)
+                lib = [(fn, path) for fn, path in tops if "/src/" in path and "/harness/" not in path]
+                if lib or not tops:
+                    hit = (rep.split("\n")[0].strip(": "), lib[0][0] if lib else "?", rep[:2500])
+                    break
+            if hit:
+                ctx.fail(dict(kind="tsan", what=hit[0][:60], site=hit[1], ex=cfg["ex"]), dict(ops=[op], stderr=hit[2]),
+                         "ThreadSanitizer: %s in %s during `%s`" % (hit[0][:80], hit[1], op))
+                continue
         if rc != 0 or not out or not out[0].startswith("stress-begin") or out[-1] != "stress-end":
             from vlib.diff import san_site
             k, fn = san_site(err)
